@@ -100,6 +100,9 @@ typedef struct {
 	uint16_t late_burst;	/* after everything else was delivered: thread late_dst is stalled in a callback, tp_shutdown() is called,
 				 * then `late_burst` plain sends are issued to it (accepted: it is still running), then it is released */
 	uint8_t late_dst;
+	uint8_t race_n;		/* (only without late_burst) an external thread sends race_n messages to thread race_dst, each held for a moment
+				 * right after its queue write, while tp_shutdown() is called: relaxed oracle, see drivers/C05_msg.cpp */
+	uint8_t race_dst, race_flags;
 	uint8_t nsenders;
 	c05_sender senders[C05_MAX_SENDERS];
 	tp_plans plans;
@@ -108,7 +111,8 @@ typedef struct {
 	int setup_rc;
 	int hang;		/* fence / completion ceiling hit */
 	uint32_t nsends;	/* total send ids used (senders first, then burst, then late burst) */
-	uint32_t nlate;		/* how many of them belong to the late burst (the last ones) */
+	uint32_t nlate;		/* how many of them belong to the late burst */
+	uint32_t nrace;		/* how many of them raced with tp_shutdown() (the last ones) */
 	uint64_t tpt_ptr[17];	/* pointer value of each pool thread object, [16] = pvt */
 	tp_res_stats res;
 } c05_out;
@@ -211,7 +215,8 @@ void c06a_run(const c06a_case *c, c06a_out *out);
 #define C06_MAX_CH 3
 #define C06_MAX_CMDS 24
 enum { /* commands */
-	E_ADD = 1, E_ENABLE, E_DISABLE, E_DEL, E_PEER_WRITE, E_DRAIN, E_PEER_CLOSE, E_SLEEP, E_PEER_SHUT_WR /* half close: shutdown(SHUT_WR) */
+	E_ADD = 1, E_ENABLE, E_DISABLE, E_DEL, E_PEER_WRITE, E_DRAIN, E_PEER_CLOSE, E_SLEEP, E_PEER_SHUT_WR /* half close: shutdown(SHUT_WR) */,
+	E_REOPEN /* both ends are closed without a delete (the kernel drops the registration) and a fresh socket pair takes the same descriptor number; the user record keeps its stale state */
 };
 typedef struct {
 	uint8_t cmd, ch;
